@@ -43,6 +43,7 @@ def run(tier):
     rep.rule('R07.f', 'observations that were reported are released; a complete report empties the list', floor=2)
     rep.rule('R07.g', 'count bookkeeping: linking adds exactly one, the recorded count is what the report uses', floor=2)
     rep.rule('R07.h', 'the list accepts at least 300 distinct observations between Queries (property quantifier)', floor=1)
+    rep.rule('R07.i', 'every descriptor announced in the count field is serialised: the report loop stops only when all announced descriptors are copied (or the list ends); frame length = 34 + 20 x announced count', floor=2)
 
     fs = FrameSetup(prog, mtu_ok=True)
     fs.keep_iter_states = True
@@ -158,6 +159,14 @@ def run(tier):
                 rep.check(okr, 'R07.c', 'wire|byte%d' % r, 'wire descriptor byte %d comes from %s, expected node byte %d' % (r, short(b), r), function='parseQuery', file=fnf)
                 if okr:
                     wire_ok = True
+    # the report loop may only be left through its condition (all announced descriptors copied / list ended)
+    for l in ql:
+        info = stats['topo.query']['loops'][l]
+        early = [kind for kind, trace, st in (info['iter_states'] or []) if kind in ('break', 'return')]
+        rep.check(not early, 'R07.i', 'report-loop|early-exit',
+                  'the report loop can be left early (%s) before all announced descriptors are copied: the QueryResp then announces more observations than it carries and the '
+                  'uncopied ones are released with the rest' % ','.join(sorted(set(early))), function='parseQuery', file=fnf,
+                  sample={'report_loop_exits': 'condition only'})
     if not wire_ok:
         rep.fail('R07.c', 'wire|no-serialisation', 'no iteration of the report loop copies a node into the response', function='parseQuery', file=fnf)
     # oracle order: type(2) real-src(6) src(6) dst(6) in terms of the frame that was observed
@@ -208,6 +217,21 @@ def run(tier):
                     function='parseQuery', file=fnf)
         # count field and truncation
         hi, lo = st.canon(S.byte(32)), st.canon(S.byte(33))
+        announced = None
+        cap_ = ('div', ('add', fs.frame_size, C(-FIRST)), C(DESC))
+        if st.prove_lt(cap_, SEEN_COUNT):
+            announced = cap_
+        elif st.prove_le(SEEN_COUNT, cap_):
+            announced = SEEN_COUNT
+        if announced is not None:
+            want_len = ('add', ('mul', C(DESC), announced), C(FIRST))
+            exact = st.same(S.length, want_len) or (st.prove_le(S.length, want_len) and st.prove_le(want_len, S.length))
+            # (independent of which conjunct of the loop condition is written first: only 'not longer than announced' is required)
+            list_ended = (not exact) and any(str(k_).startswith('exit:parseQuery#') for k_ in st.tags) and st.prove_le(S.length, want_len)
+            # leaving because the list ended before `announced` nodes contradicts count = list length (not proved here): tolerated
+            rep.check(exact or list_ended, 'R07.i', 'length-vs-count',
+                      'QueryResp announces %s descriptors but its length is %s, not 34 + 20 x that count' % (short(announced), short(st.canon(S.length))),
+                      function='parseQuery', file=fnf, sample={'announced': short(announced), 'length': short(st.canon(S.length))} if len(rep.samples) < 40 else None)
         so = st.objs['st']
         cnt_after = st.canon(mem.load_scalar(st, so, C(fs.soff('see_list_count')), fs.ix.parse_type('unsigned int')))
         head = st.canon(mem.load_scalar(st, so, C(fs.soff('see_list')), fs.ix.parse_type('void *')))
